@@ -428,6 +428,35 @@ func replayNative(repo, verif, replayPath string) (bool, string) {
 	}
 	gen("api_native.go.tmpl", "api_native.go")
 	gen("replay_test.go.tmpl", "replay_test.go", "ENTRY", d.Entry)
+	if d.Pkg == "." {
+		// nitro.go: the number of backup shards follows the engine's runtime.NumCPU stub; for the
+		// file-system fault harnesses the os / ioutil mutations of file.go and nitro.go go through the shims
+		names := []string{"nitro.go"}
+		fsShim := strings.HasPrefix(d.Entry, "H_C12")
+		if fsShim {
+			names = append(names, "file.go")
+		}
+		for _, name := range names {
+			b, err := os.ReadFile(filepath.Join(repo, name))
+			if err != nil {
+				return false, err.Error()
+			}
+			s := strings.ReplaceAll(string(b), "runtime.NumCPU()", "vNumCPU()")
+			if fsShim {
+				for _, r := range [][2]string{{"os.OpenFile(", "vOsOpenFile("}, {"os.Open(", "vOsOpen("}, {"os.MkdirAll(", "vOsMkdirAll("},
+					{"ioutil.WriteFile(", "vIoWriteFile("}, {"*os.File", "*vFile"}} {
+					s = strings.ReplaceAll(s, r[0], r[1])
+				}
+				s += "\nvar _ = os.Getpid\n"
+				if name == "nitro.go" {
+					s += "var _ = ioutil.Discard\n"
+				}
+			}
+			out := filepath.Join(tmp, "shim_"+name)
+			os.WriteFile(out, []byte(s), 0644)
+			ov[filepath.Join(repo, name)] = out
+		}
+	}
 	if hasPreempt(d.Sched) {
 		if err := instrumentSchedule(repo, tmp, &d, ov); err != nil {
 			return false, "cannot instrument schedule: " + err.Error()
